@@ -334,3 +334,19 @@ def gen_C05_big(rng, tier):
         c.small(com_quit())
         out.append(c.build())
     return out
+
+
+def gen_C19_big(rng, tier):
+    """end of stream at and around the fragment boundaries of a multi-packet command"""
+    out = []
+    n = 2 * PM + 9
+    offs = [4 + PM + k for k in (-1, 0, 1, 2, 3, 4, 5)] + [2 * (4 + PM) + k for k in (-1, 0, 1, 4)] + [2 * (4 + PM) + 4 + 8]
+    if tier == "quick":
+        offs = [4 + PM - 1, 4 + PM, 4 + PM + 2, 4 + PM + 4, 2 * (4 + PM), 2 * (4 + PM) + 4, 2 * (4 + PM) + 4 + 8]
+    for i, cut in enumerate(offs):
+        c = BigConv("C19-bigeof-%d" % i, mode="pipelined", meta={"cut": cut})
+        wire = frame_runs(canon([[3, 1]] + pattern_ascii(n - 1, i)), 0)
+        c.msgs.append({"b": take(wire, cut), "reply": True})
+        c.programs.append([op_completed(0, 0)])
+        out.append(c.build())
+    return out
